@@ -301,9 +301,39 @@ fn limit_case(g: &mut Gen, ctx: &mut Ctx) -> CaseResult {
     Ok(())
 }
 
+/// Ill-formed "tag heads" (the reserved additional-information values 28-30 and 31 of major type
+/// 6, with every plausible argument width, the argument ending in the registered tag number) in
+/// front of a valid body: not CBOR, hence not a tagged form.
+fn malformed_head_case(g: &mut Gen, ctx: &mut Ctx) -> CaseResult {
+    let t = &types()[g.below(types().len())];
+    let body = &palette()[(t.kind as usize * 2 + g.below(2)) % palette().len()];
+    let first = *g.pick(&[0xdcu8, 0xdd, 0xde, 0xdf]);
+    let width = *g.pick(&[0usize, 1, 2, 4, 8, 16, 32, 64]);
+    let mut arg = g.bytes(width);
+    let tb = t.tag.to_be_bytes();
+    // the argument ends in the tag number (as many of its low-order bytes as fit)
+    let k = width.min(8);
+    let alen = arg.len();
+    arg[alen - k..].copy_from_slice(&tb[8 - k..]);
+    let mut x = vec![first];
+    x.extend_from_slice(&arg);
+    x.extend_from_slice(body);
+    ctx.class("malformed-tag-head");
+    ctx.nontrivial(hash_bytes(&[t.kind.name().as_bytes(), &x].concat()));
+    ctx.sample_with(|| format!("{} <- ill-formed head {}", t.kind.name(), hex_trunc(&x, 24)));
+    if let Ok(v) = (t.tagged)(&x) {
+        fail!("from_tagged_slice accepted input that is not well-formed CBOR (reserved tag head {:02x} with a {}-byte argument): {} -> {}", first, width, hex_trunc(&x, 40), short(&v, 80));
+    }
+    ensure!((t.untagged)(&x).is_err(), "from_slice accepted input that is not well-formed CBOR: {}", hex_trunc(&x, 40));
+    Ok(())
+}
+
 fn case(g: &mut Gen, ctx: &mut Ctx) -> CaseResult {
     if g.ratio(1, 20) {
         return limit_case(g, ctx);
+    }
+    if g.ratio(1, 20) {
+        return malformed_head_case(g, ctx);
     }
     let t = &types()[g.below(types().len())];
     let ntags = g.weighted(&[2, 6, 2, 1]);
